@@ -92,6 +92,10 @@ package middleware
 //@     && session.CreatedAt == ret0(Load).CreatedAt && session.ExpiresOn == ret0(Load).ExpiresOn
 //@     && session.Email == ret0(Load).Email && session.User == ret0(Load).User
 //@ at call needsRefresh#0 assert[first-check-on-the-callers-session] arg(needsRefresh#0, 1) == session
+//@ prop C12 C11 C13
+//@ at call ObtainLock assert[the-lock-is-held-for-the-refresh-lock-duration] arg(ObtainLock, 2) == sessionRefreshLockDuration && recv(ObtainLock) == session
+//@ at call Sleep assert[waiters-poll-at-the-retry-period] arg(Sleep, 0) == sessionRefreshRetryPeriod
+//@ at call WithTimeout assert[waiters-give-up-after-the-obtain-timeout] arg(WithTimeout, 1) == sessionRefreshObtainTimeout
 //@ ensures[stale-never-honoured-unchecked] ret0 == nil ==> !ret(needsRefresh#0)
 //@     || (called(Load) && ret1(Load) == nil && ret0(Load) != nil && !ret(needsRefresh#1))
 //@     || (called(validateSession) && ret(validateSession) == nil && arg(validateSession, 2) == session)
